@@ -27,6 +27,11 @@ func (m *MsgSubmitProofExternalOwnedAccount) ValidateBasic() error {
 		return errorsmod.Wrapf(errors.ErrInvalidRequest, "account to prove is not a valid bech32 account address: %s", m.Account)
 	}
 
+	if len(accAddr) != common.AddressLength {
+		// the signature is verified against an Ethereum address: only such an address can be proved
+		return errorsmod.Wrapf(errors.ErrInvalidRequest, "account to prove must be a %d bytes address: %s", common.AddressLength, m.Account)
+	}
+
 	if bytes.Equal(submitterAccAddr, accAddr) {
 		return errorsmod.Wrapf(errors.ErrInvalidRequest, "submitter and account to prove are equals: %s", m.Account)
 	}
